@@ -17,7 +17,7 @@ LEVEL_TEXT = ("Proof + correspondence: Coq model of feaLib's registration rule a
               " featureWriters/ast.addLookupReferences is TRANSLATED from /repo's source on every run (harness/fea_from_source.py -> Generated/FeaGen.v) and proved equal to the model (Fea/LookupRefsTied.v): 'every listed language reaches the lookups' is restated about the translated code.")
 LEVEL_NOTE = ("Trusted: Coq kernel, hand model, harness, GPOS reader, feaLib. Which script tags the kern block names is taken from "
               "the compiled font (the kern writer's script detection is C05's subject).")
-TECHNIQUE = "Coq model + theorems (incl. refutation witness) of feature registration; vm_compute check of compiled ScriptLists"
+TECHNIQUE = "Coq model + theorems (incl. refutation witness) of feature registration (addLookupReferences translated from source and proved equal to its model); vm_compute check of compiled ScriptLists"
 IMPORTS = "From U2F Require Import Base.Prelude Fea.Reach."
 RULE = ("fonts with Latin/Cyrillic/Greek/Arabic/Hebrew/Devanagari glyphs, kerning between glyphs of each script, top/_top anchors "
         "on every base and mark, optional entry/exit anchors; languagesystem statements: none, DFLT only, DFLT+one script, all "
